@@ -4,6 +4,14 @@
 package vbb
 
 import (
+	"crypto/ecdsa"
+	"crypto/elliptic"
+	crand "crypto/rand"
+	"crypto/tls"
+	"crypto/x509"
+	"crypto/x509/pkix"
+	"encoding/pem"
+	"math/big"
 	"bufio"
 	"bytes"
 	"encoding/base64"
@@ -68,6 +76,7 @@ func bbConfig() *vlib.Config {
 type agent struct {
 	root, base, cfgFile, sock string
 	httpAddr, ldapAddr        string
+	httpsAddr, ldapsAddr      string
 	cmd                       *exec.Cmd
 	mu                        sync.Mutex
 	lines                     []string
@@ -122,6 +131,12 @@ func startAgentWith(binary, root, cfgFile string, o agentOpts) (*agent, error) {
 			lc.WriteString("http:\n  listen: [\"127.0.0.1:0\"]\n")
 		case "ldap":
 			lc.WriteString("ldap:\n  listen: [\"127.0.0.1:0\"]\n")
+		case "https", "ldaps":
+			cert, key, err := tlsFiles(root)
+			if err != nil {
+				return nil, err
+			}
+			fmt.Fprintf(&lc, "%s:\n  listen: [\"127.0.0.1:0\"]\n  tls:\n    certificate: %q\n    certificate-key: %q\n", l, cert, key)
 		}
 	}
 	lf := filepath.Join(root, "listener.yaml")
@@ -168,8 +183,12 @@ func startAgentWith(binary, root, cfgFile string, o agentOpts) (*agent, error) {
 			if m := listenRe.FindStringSubmatch(l); m != nil {
 				got++
 				switch {
+				case strings.Contains(l, "web-api") && strings.Contains(l, "using TLS"):
+					a.httpsAddr = m[1]
 				case strings.Contains(l, "web-api"):
 					a.httpAddr = m[1]
+				case strings.Contains(l, "ldap") && strings.Contains(l, "using TLS"):
+					a.ldapsAddr = m[1]
 				case strings.Contains(l, "ldap"):
 					a.ldapAddr = m[1]
 				}
@@ -216,6 +235,24 @@ func startAgentSA(root, cfgFile string, o agentOpts) (*agent, error) {
 				a.httpAddr = ln.Addr().String()
 			} else {
 				a.ldapAddr = ln.Addr().String()
+			}
+			f, _ := ln.(*net.TCPListener).File()
+			ln.Close()
+			files, names = append(files, f), append(names, l)
+		case "https", "ldaps":
+			cert, key, err := tlsFiles(root)
+			if err != nil {
+				return nil, err
+			}
+			fmt.Fprintf(&lc, "%s:\n  listen: [\"127.0.0.1:0\"]\n  tls:\n    certificate: %q\n    certificate-key: %q\n", l, cert, key)
+			ln, err := net.Listen("tcp", "127.0.0.1:0")
+			if err != nil {
+				return nil, err
+			}
+			if l == "https" {
+				a.httpsAddr = ln.Addr().String()
+			} else {
+				a.ldapsAddr = ln.Addr().String()
 			}
 			f, _ := ln.(*net.TCPListener).File()
 			ln.Close()
@@ -373,6 +410,62 @@ func (a *agent) saslAuth(user, pw string, split int, pause time.Duration) (bool,
 }
 
 var httpClient = &http.Client{Timeout: 20 * time.Second}
+var httpsClient = &http.Client{Timeout: 20 * time.Second, Transport: &http.Transport{TLSClientConfig: &tls.Config{InsecureSkipVerify: true}}}
+
+// tlsFiles writes a self-signed certificate and its key below root (once per root).
+func tlsFiles(root string) (certFile, keyFile string, err error) {
+	certFile, keyFile = filepath.Join(root, "cert.pem"), filepath.Join(root, "key.pem")
+	if _, e := os.Stat(certFile); e == nil {
+		return
+	}
+	key, err := ecdsa.GenerateKey(elliptic.P256(), crand.Reader)
+	if err != nil {
+		return
+	}
+	tpl := &x509.Certificate{SerialNumber: big.NewInt(1), Subject: pkix.Name{CommonName: "localhost"}, NotBefore: time.Now().Add(-time.Hour), NotAfter: time.Now().Add(24 * time.Hour),
+		KeyUsage: x509.KeyUsageDigitalSignature, ExtKeyUsage: []x509.ExtKeyUsage{x509.ExtKeyUsageServerAuth}, IPAddresses: []net.IP{net.ParseIP("127.0.0.1")}, DNSNames: []string{"localhost"}}
+	der, err := x509.CreateCertificate(crand.Reader, tpl, tpl, &key.PublicKey, key)
+	if err != nil {
+		return
+	}
+	kb, err := x509.MarshalECPrivateKey(key)
+	if err != nil {
+		return
+	}
+	if err = os.WriteFile(certFile, pem.EncodeToMemory(&pem.Block{Type: "CERTIFICATE", Bytes: der}), 0o600); err != nil {
+		return
+	}
+	err = os.WriteFile(keyFile, pem.EncodeToMemory(&pem.Block{Type: "EC PRIVATE KEY", Bytes: kb}), 0o600)
+	return
+}
+
+func (a *agent) basicAuthTLS(user, pw string) (int, error) {
+	req, _ := http.NewRequest("GET", "https://"+a.httpsAddr+"/basic-auth", nil)
+	req.Header.Set("Authorization", "Basic "+base64.StdEncoding.EncodeToString([]byte(user+":"+pw)))
+	resp, err := httpsClient.Do(req)
+	if err != nil {
+		return 0, err
+	}
+	io.Copy(io.Discard, resp.Body)
+	resp.Body.Close()
+	return resp.StatusCode, nil
+}
+
+func (a *agent) ldapsBind(name, pw string) (bool, error) {
+	c, err := ldap.DialTLS("tcp", a.ldapsAddr, &tls.Config{InsecureSkipVerify: true})
+	if err != nil {
+		return false, err
+	}
+	defer c.Close()
+	err = c.Bind(name, pw)
+	if err == nil {
+		return true, nil
+	}
+	if le, ok := err.(*ldap.Error); ok && le.ResultCode != ldap.ErrorNetwork {
+		return false, nil
+	}
+	return false, err
+}
 
 func (a *agent) basicAuth(user, pw string) (int, error) {
 	req, _ := http.NewRequest("GET", "http://"+a.httpAddr+"/basic-auth", nil)
